@@ -74,6 +74,11 @@ TEXTS = {
         "level_text": "Exploration: per format (BMP 12 variants incl. 1/4/8-bit palette, RLE4/RLE8, top-down, 32-bit; PNM binary+ASCII P1-P6; TARGA raw/RLE x origin x 24/32; PNG gray/rgb/rgba/16-bit/1-bit/4-bit; TIFF strip/tile x none/LZW; JPEG gray/rgb) EVERY truncation length of every base file at two shapes, every byte position of the first 64 bytes (and a lattice beyond) x 26 boundary values as 8/16/32-bit fields, 25k/400k seeded multi-byte mutations, each through 13 entry points (read_image_info, read_image x5 pixel types, read_and_convert_image, read_view/read_and_convert_view into guard-page views, scanline loop, any_image, two sub-rectangle reads) x {istream, FILE*, file name}: about 0.4M (quick) / 3M (thorough) structured cases plus six libFuzzer campaigns of 75 s / 25 min seeded with all base files. Outcome oracle: return or C++ exception; never a sanitizer report, guard fault, assertion, longjmp into a dead frame, or a case above the watchdog. Truncation oracle: a whole-image read of a BMP/PNM/TARGA file that lacks at least one whole sample must throw.",
         "level_note": "Sanitizers see heap/stack/global overruns and UB; intra-object overruns are visible only through UBSan's array-bounds check (which is how the PNM digit buffer was caught). Uninitialised-read detection is indirect (truncation oracle) because MSan cannot be used with the un-instrumented codec libraries. Leaks on error paths are out of scope. libFuzzer campaigns are only approximately reproducible from the seed; a saved artifact is the reproducible unit (./check C11 --replay <artifact>).",
     },
+    "C14": {
+        "technique": "rapidcheck-generated (alternative(s), shape, view programs, operation) cases; differential of every any_image / any_image_view operation against the same call on the held concrete object (index, dimensions, per-pixel memory identity or value; twin destination roots for algorithms), std::bad_cast + untouched destination for pairs a documentation-derived table calls incompatible",
+        "level_text": "Exploration: 180k (quick) / 2.7M (thorough) generated cases over type lists {gray8, rgb8, bgr8, rgb8 planar, rgba8, gray16, rgb16} and {rgb8 planar, gray8, cmyk8, rgb8} (plus a sub-list for converting assignment), shapes 0..7. Transformations: all 10 flip/rotate/transpose/subimage/subsample overloads, nth_channel and three colour conversions, applied to view()/const_view() directly and after programs of up to 4 transformations. Algorithms: all 15 overloads of copy_pixels, copy_and_convert_pixels (with and without converter), equal_pixels, fill_pixels, for_each_pixel, resample_pixels over EVERY ordered pair of alternatives within and across the lists, on derived (stepped, flipped, transposed, offset) source and destination views, incl. aliasing operands for equal_pixels; whole destination root compared with a twin processed by the concrete algorithm. Value semantics: deep copy/assignment/equality of any_image (also from concrete images and sub-list variants), shallow copy/equality of any_image_view, recreate (both overloads, alignment) keeps the held type.",
+        "level_note": "Differential against the concrete operation (that is what the property states); the concrete operations themselves are decided by C01-C04 and C09. equal_pixels is additionally compared with a per-pixel value comparison. resample is exercised with the nearest-neighbour sampler and integer translations only (C17 covers samplers).",
+    },
     "C13": {
         "technique": "rapidcheck-generated valid files (GIL writers, hand-serialised BMP/TARGA/PNM variants, corpus files) and read recipes; differential of every read path against the full native read_image; guard-page destinations with identity tags",
         "level_text": "Exploration: 15k (quick) / 240k (thorough) (file, recipe) cases over 6 formats and 97 file variants (bottom-up/top-down, 1/4/8-bit palette, RLE4/RLE8, 16/24/32-bit BMP; ASCII and binary PNM; raw/RLE x both origins TARGA; PNG incl. PngSuite palette/tRNS/16-bit; strip/tile x none/LZW/packbits TIFF; JPEG). Per file: three device kinds, read_image_info, EVERY sub-rectangle for images up to 6x6 (11 sampled otherwise), read_view exact / too small in guard-page memory, read_and_convert_image/view to four pixel types vs color_convert of the native read, scanline rows, any_image.",
